@@ -19,3 +19,46 @@ Theorem C10_best_among_candidates :
     (forall c, In c (all_combinations board hole req) -> ps_score (calc_power pr c) <= ps_score b).
 Proof. exact best_power_spec. Qed.
 Print Assumptions C10_best_among_candidates.
+
+(* in variants that require a fixed number of hole cards every candidate selection is a selection of
+   exactly that many hole cards joined to a selection of board cards *)
+Theorem C10_required_hole_cards :
+  forall (board hole : list card) k sel,
+    In sel (all_combinations board hole (S k)) ->
+    exists h b, sel = h ++ b /\ In h (possible_combinations hole (S k)) /\ In b (possible_combinations board (5 - S k)).
+Proof.
+  intros board hole k sel H. unfold all_combinations in H. apply in_flat_map in H as (h & Hh & Hb).
+  apply in_map_iff in Hb as (b & <- & Hb). exists h, b. auto.
+Qed.
+Print Assumptions C10_required_hole_cards.
+
+(* engine level: in every reachable state after the deal, the hand stored for every seat is the
+   evaluator's best hand for that seat's own hole cards and the present board — category, cards and
+   strength of one and the same evaluation, which no admissible selection beats *)
+From PF Require Import ModelGame ProofsHands.
+Theorem C10_reported_hand_is_the_best_hand :
+  forall c deck g ops,
+    create c deck = (g, Ok) ->
+    let s := run g ops in
+    st_round (g_st s) <> RNone ->
+    forall i ci b, (i < nplayers s)%nat ->
+      p_comb (get_p s i) = Some ci ->
+      best_power (m_table (g_meta s)) (map card_of_wire (st_board (g_st s))) (map card_of_wire (p_hole (get_p s i))) (m_req (g_meta s)) = Some b ->
+      ci = mkCI (Some (ps_comb b)) (map wire_of_card (ps_cards b)) (ps_score b) /\
+      (exists sel, In sel (all_combinations (map card_of_wire (st_board (g_st s))) (map card_of_wire (p_hole (get_p s i))) (m_req (g_meta s))) /\
+                   b = calc_power (m_table (g_meta s)) sel) /\
+      (forall sel, In sel (all_combinations (map card_of_wire (st_board (g_st s))) (map card_of_wire (p_hole (get_p s i))) (m_req (g_meta s))) ->
+                   ps_score (calc_power (m_table (g_meta s)) sel) <= ci_power ci).
+Proof.
+  intros c deck g ops Hcr s Hr i ci b Hi Hc Hb.
+  pose proof (Hinv_reachable c deck g ops Hcr Hr i Hi ci b Hc Hb) as E.
+  destruct (best_power_spec _ _ _ _ _ Hb) as [H1 H2]. split; [exact E|]. split; [exact H1|].
+  intros sel Hsel. rewrite E. cbn [ci_power]. apply H2. exact Hsel.
+Qed.
+Print Assumptions C10_reported_hand_is_the_best_hand.
+
+(* and that strength is the one the showdown compares *)
+Theorem C10_showdown_compares_the_reported_strength :
+  forall p ci, p_fold p = false -> p_comb p = Some ci -> score_of p = ci_power ci.
+Proof. intros p ci Hf Hc. unfold score_of. rewrite Hf, Hc. reflexivity. Qed.
+Print Assumptions C10_showdown_compares_the_reported_strength.
